@@ -174,6 +174,22 @@ func (e *Engine) intrinsic(st *State, fr *Frame, in ssa.CallInstruction, name st
 	case "vfMapOrder":
 		st.mapMode = e.needInt(st, args[0], "map order mode")
 		return nil
+	case "vfMapOrderSite": // (site int): permute only that range-over-map site
+		st.mapMode = 4
+		st.mapSite = e.needInt(st, args[0], "map site")
+		st.mapSiteCtr = 0
+		return nil
+	case "vfMapSites": // number of range-over-map sites (>= 2 entries) seen since vfMapOrderSite
+		return ConstBV(64, uint64(st.mapSiteCtr))
+	case "vfTrackShared":
+		st.trackShared = args[0].(*Term).IsTrue()
+		st.sharedEpoch = e.baseEpoch
+		return nil
+	case "vfSharedWrites":
+		if st.sharedWrites > 0 {
+			e.rep.note("shared-write", strings.Join(st.sharedWhere, "; "))
+		}
+		return ConstBV(64, uint64(st.sharedWrites))
 	case "vfCut":
 		abort("cut", "%s", argStr(args, 0))
 	case "vfReach":
